@@ -203,8 +203,9 @@ func runBody(body func(x *X), o runOpts) *checkRun {
 }
 
 type verdict struct {
-	problems []string
-	detail   map[string]any
+	inconclusive string
+	problems     []string
+	detail       map[string]any
 	// facts for evidence
 	failedReported bool
 	accepted       int
@@ -219,6 +220,10 @@ func (v *verdict) bad(format string, a ...any) {
 // judgeReality implements the C01 oracle (DESIGN §5 C01, items 1–5).
 func judgeReality(cr *checkRun, expectNoFailFile bool) *verdict {
 	v := &verdict{detail: map[string]any{}}
+	if cr.log.exhausted != "" {
+		v.inconclusive = "watchdog: " + cr.log.exhausted
+		return v
+	}
 	tb, lg, rp := cr.tb, cr.log, cr.rp
 	if tb.escaped != nil {
 		v.bad("a panic escaped Check: %v", tb.escaped)
@@ -331,7 +336,15 @@ func clipList(xs []string, n int) []string {
 // decreasing accepted candidates, reported buffer = last pruned recording.
 func judgeChain(cr *checkRun) *verdict {
 	v := &verdict{detail: map[string]any{}}
-	if cr.rp.Kind != "failed" && cr.rp.Kind != "panic" {
+	exhausted := cr.log.exhausted != ""
+	if exhausted {
+		// the chain observed before the watchdog fired is still judged; only if it shows nothing is the run inconclusive
+		defer func() {
+			if len(v.problems) == 0 {
+				v.inconclusive = "watchdog: " + cr.log.exhausted
+			}
+		}()
+	} else if cr.rp.Kind != "failed" && cr.rp.Kind != "panic" {
 		return v
 	}
 	v.failedReported = true
@@ -359,12 +372,15 @@ func judgeChain(cr *checkRun) *verdict {
 		v.bad("prune() of the reproduction recording differs from the reference prune: %s vs %s", wordsStr(best), wordsStr(ref))
 	}
 	orig := best
+	if cr.log.witness != nil {
+		invs = append(append([]*Inv(nil), invs...), cr.log.witness)
+	}
 	for _, inv := range invs {
 		if inv.phase() != "accepted" {
 			continue
 		}
 		v.accepted++
-		if inv.siteKey() != site {
+		if inv != cr.log.witness && inv.siteKey() != site {
 			v.bad("accepted candidate #%d fails at site %q, the original failure at %q", v.accepted, inv.siteKey(), site)
 			v.detail["offending"] = inv.brief()
 		}
@@ -382,7 +398,7 @@ func judgeChain(cr *checkRun) *verdict {
 		v.chainSteps++
 	}
 	final := invs[len(invs)-1]
-	if final.Kind == "buffer" && !final.Persist {
+	if !exhausted && final.Kind == "buffer" && !final.Persist {
 		if !wordsEqual(final.Cand, best) {
 			v.bad("reported bitstream %s is not the last accepted (pruned) recording %s", wordsStr(final.Cand), wordsStr(best))
 		}
